@@ -101,10 +101,54 @@ func canon(fd *ast.FuncDecl, lines []string) []string {
 // effects lists, in source order, the statements of fd that touch the chain's persistent or mirrored state.
 func effects(fd *ast.FuncDecl) []string {
 	var out []string
+	// locals bound to a batch of the chain's store, and batch writes whose error is returned
+	batchVars := map[string]bool{}
+	returned := map[token.Pos]bool{}
+	ast.Inspect(fd.Body, func(n ast.Node) bool {
+		switch x := n.(type) {
+		case *ast.AssignStmt:
+			if x.Tok == token.DEFINE && len(x.Lhs) == 1 && len(x.Rhs) == 1 {
+				if c, ok := x.Rhs[0].(*ast.CallExpr); ok && strings.HasSuffix(src(c.Fun), ".groups.NewBatch") {
+					if id, ok := x.Lhs[0].(*ast.Ident); ok {
+						batchVars[id.Name] = true
+					}
+				}
+			}
+		case *ast.IfStmt:
+			if as, ok := x.Init.(*ast.AssignStmt); ok && len(as.Rhs) == 1 {
+				if c, ok := as.Rhs[0].(*ast.CallExpr); ok {
+					rets := false
+					ast.Inspect(x.Body, func(m ast.Node) bool {
+						if r, ok := m.(*ast.ReturnStmt); ok && len(r.Results) > 0 && src(r.Results[len(r.Results)-1]) == src(as.Lhs[0]) {
+							rets = true
+						}
+						return true
+					})
+					if rets {
+						returned[c.Pos()] = true
+					}
+				}
+			}
+		}
+		return true
+	})
 	ast.Inspect(fd.Body, func(n ast.Node) bool {
 		switch x := n.(type) {
 		case *ast.CallExpr:
 			s := src(x.Fun)
+			if sel, ok := x.Fun.(*ast.SelectorExpr); ok {
+				if id, ok := sel.X.(*ast.Ident); ok && batchVars[id.Name] {
+					switch {
+					case sel.Sel.Name == "Put" && len(x.Args) == 2:
+						out = append(out, "BatchPut "+src(x.Args[0])+" <- "+src(x.Args[1]))
+					case sel.Sel.Name == "Write" && returned[x.Pos()]:
+						out = append(out, "BatchWrite (error returned)")
+					case sel.Sel.Name == "Write":
+						out = append(out, "BatchWrite (error ignored)")
+					}
+					return true
+				}
+			}
 			switch {
 			case strings.HasSuffix(s, ".groups.Put") && len(x.Args) == 2:
 				out = append(out, "Put "+src(x.Args[0])+" <- "+src(x.Args[1]))
@@ -224,7 +268,7 @@ func guards(fd *ast.FuncDecl) []string {
 func split(eff []string) (ordered, memory []string) {
 	for _, e := range eff {
 		k := strings.Fields(e)[0]
-		if k == "Put" || k == "Delete" || k == "NewBatch" || strings.HasSuffix(k, ".count++") || strings.HasSuffix(k, ".count--") ||
+		if k == "Put" || k == "Delete" || k == "NewBatch" || k == "BatchPut" || k == "BatchWrite" || strings.HasSuffix(k, ".count++") || strings.HasSuffix(k, ".count--") ||
 			(strings.HasSuffix(k, ".count") && len(strings.Fields(e)) > 1) {
 			ordered = append(ordered, e)
 		} else {
@@ -372,12 +416,12 @@ func main() {
 			// writers of the chain's state anywhere in the package
 			for _, e := range canon(fd, effects(fd)) {
 				kind := strings.Fields(e)[0]
-				if kind == "Put" || kind == "Delete" || kind == "NewBatch" ||
+				if kind == "Put" || kind == "Delete" || kind == "NewBatch" || kind == "BatchPut" || kind == "BatchWrite" ||
 					strings.Contains(e, ".count") || strings.Contains(e, ".lastGroup") {
 					// effects() matches on field names; restrict to group-chain receivers/values
 					if scoped || strings.Contains(e, "groupChainImpl") {
 						w := qual + ": " + kind
-						if kind != "Put" && kind != "Delete" && kind != "NewBatch" {
+						if kind != "Put" && kind != "Delete" && kind != "NewBatch" && kind != "BatchPut" && kind != "BatchWrite" {
 							w = qual + ": " + e
 						}
 						writers = append(writers, w)
